@@ -116,4 +116,17 @@ def transposeDiaJ (j : Json) : Except String Json := do
   let out := mapTransposeDia (fun (z : CI) => if conj then ⟨z.re, -z.im⟩ else z) a
   pure <| Json.mkObj [("abs", absJ out.rows out.cols out.abs), ("offsets", Json.arr (out.diags.map fun p => (p.1 : Json)).toArray)]
 
+def denseBufOf (j : Json) (k : String) : Except String (Dense CI) := do
+  let o ← j.getObjVal? k
+  let buf ← (← getArr o "data").toList.mapM ciOf
+  pure { rows := ← getNat o "rows", cols := ← getNat o "cols", fortran := ← getBool o "fortran", data := fun p => buf.getD p 0 }
+
+def iaddDenseJ (j : Json) : Except String Json := do
+  let l ← denseBufOf j "l"
+  let r ← denseBufOf j "r"
+  let s ← ciOf (← j.getObjVal? "scale")
+  let out := iaddDense l r s
+  pure <| Json.mkObj [("data", Json.arr ((List.range (out.rows * out.cols)).map fun p => ciJ (out.data p)).toArray),
+    ("abs", absJ out.rows out.cols out.abs)]
+
 end Qv.Drv.C01
